@@ -52,6 +52,11 @@ class Scratch:
             f.write("\n[lints.rust]\nunexpected_cfgs = { level = \"allow\" }\n")
         libs = os.path.join(self.dir, "src", "lib.rs")
         src = open(libs).read()
+        # every harness source is available next to the mounted ones (include!d helpers)
+        os.makedirs(os.path.join(self.dir, "kv"), exist_ok=True)
+        for fn in os.listdir(HARNESS_DIR):
+            if fn.endswith(".rs"):
+                shutil.copy(os.path.join(HARNESS_DIR, fn), os.path.join(self.dir, "kv", fn))
         need_kfs = False
         # a harness file may require another one to be mounted as well (// kv-with: <group>)
         for g in list(self.groups):
